@@ -65,6 +65,19 @@ CLAIMED.update({
     },
 })
 
+CLAIMED.update({
+    "C15": {
+        "text": "Panic-site inventory over the call-graph closure (CHA) of every public read-side entry point: explicit panics are "
+                "hand-triaged (safe with reason / genuine defect = known finding / unproven), constant-index and constant-divisor sites "
+                "are discharged automatically, every other unwrap/index/slice/div/shift site is held against a frozen per-function "
+                "baseline that is explicitly not a claim of safety. Decides: no new panic-capable construct in decode-reachable code, "
+                "and the guards that keep lazy views safe. Does not decide loops, stack or allocation, nor the baseline sites themselves.",
+        "note": "baseline sites are undecided (evidence counts them); 25 known-finding keys (F5) by exact key and multiplicity; one CSI panic repaired (fix: 5f315e7)",
+        "technique": "static analysis: whole-workspace call graph with class-hierarchy expansion, panic-construct inventory on MIR, constant-folding discharge, ratchet against reviewed tables",
+        "design_ref": "§5 C15",
+    },
+})
+
 NOT_APPLICABLE = {
     "C08": "every clause is numeric (rANS/arith/fqzcomp state arithmetic, ITF8/LTF8 bit arithmetic): correct and off-by-one "
            "implementations have the same code shape, so no sound static rule short of a solver/proof decides it; the "
